@@ -41,7 +41,7 @@ def run(ctx):
 def replay(obj):
     case = obj["case"]
     if obj.get("stream") == "c11":
-        r = dbgsem.c11_case(case["text"], case["opts"], case["cmds"])
+        r = dbgsem.c11_case(case["text"], case["opts"], case["cmds"], max_steps=60000)
         return None if r in (None, "skip") else r
     if obj.get("stream") == "shape":
         return dbgsem.shape_problem(case["text"], case.get("opts", {}))
